@@ -396,7 +396,7 @@ def path_programs(ctx, n_per=None):
 
 
 def C14(ctx):
-    import pathcheck
+    import pathcheck, loomrun
     ctx.assumptions += ["the iteration hook hands over serde_json(rt::Path) after each iteration and after each step; "
                         "ExploreTrace.tla re-computes Path::step from the recorded state and compares exactly",
                         "termination is observed (the run returned) and implied by strict DFS advance on a finite tree"]
@@ -422,8 +422,24 @@ def C14(ctx):
         ctx.cov.setdefault("branch_kinds_seen", {})
         for k in kinds:
             ctx.cov["branch_kinds_seen"][k] = ctx.cov["branch_kinds_seen"].get(k, 0) + 1
+    # the same under a preemption bound (the bounded engine has code of its own: Schedule::backtrack, the conservative point)
+    bprogs = [(i, p) for i, (p, r) in enumerate(zip(progs, res)) if r["end"] == "ok" and 4 <= r["iters"] <= 3000][: (16 if ctx.tier == "quick" else 80)]
+    bitems = [{"prog": p, "cfg": {"iter_cap": cap, "want_paths": True, "preemption_bound": b}} for (i, p) in bprogs for b in (1, 2, 3)]
+    BR = loomrun.run_items(os.path.join(ctx.work, "bounded"), bitems, jobs=ctx.jobs, tag="bounded") if bitems else []
+    for k, r in enumerate(BR):
+        i, p = bprogs[k // 3]
+        b = (1, 2, 3)[k % 3]
+        if r["end"] not in ("ok", "capped"):
+            ctx.violation("bounded-run-failed", p, {"bound": b, "end": r["end"]}, {"msg": r["msg"][:200]})
+            continue
+        decs = [pathcheck.decisions(pathcheck.canon_path(path)) for (ph, it, path) in r["hook_events"] if ph == "end"]
+        if len(set(decs)) != len(decs):
+            ctx.violation("repeated-execution", p, {"bound": b, "iterations": len(decs), "distinct": len(set(decs))}, {})
+        # (a bounded run may well take MORE iterations than the unbounded one: the conservative backtrack points undo part
+        # of the reduction; only repetitions count)
+        if len(r["hook_events"]) < 4000:
+            runs.append(({"prog": i, "bound": b}, r["hook_events"]))
     # an exploration that is stopped and resumed from its checkpoint is still ONE exploration: no execution twice
-    import loomrun
     ck = os.path.join(ctx.work, "ckpt")
     os.makedirs(ck, exist_ok=True)
     cand = [(i, p, r) for i, (p, r) in enumerate(zip(progs, res)) if r["end"] == "ok" and 6 <= r["iters"] <= 600][: (4 if ctx.tier == "quick" else 20)]
@@ -547,6 +563,26 @@ def C13(ctx):
         runs.append(({"prog": pi, "k": k, "c": c, "run": "A"}, ra["hook_events"]))
         runs.append(({"prog": pi, "k": k, "c": c, "run": "B"}, rb["hook_events"]))
     ctx.cov["stop_resume_pairs"] = pairs
+    # a run that crashes, is resumed, crashes AGAIN before its next checkpoint, and is resumed again: the file on disk still
+    # holds the last stored checkpoint (interval 3: crash in iteration 8 -> stored before #6; the resumed run crashes in its
+    # 2nd iteration, before it stores anything; the third run must continue from #6)
+    dbl = [(pi, p, u) for pi, (p, u) in enumerate(zip(progs, U1)) if u["iters"] >= 12][:3]
+    for (pi, p, u) in dbl:
+        f = os.path.join(ck, f"dbl{pi}.json")
+        if os.path.exists(f):
+            os.remove(f)
+        cfg0 = {"want_seq": True, "checkpoint_file": f, "checkpoint_interval": 3}
+        a = loomrun.run_items(os.path.join(ctx.work, "dblA"), [{"prog": p, "cfg": dict(cfg0, panic_at_iter=8)}], jobs=1, tag="dblA")[0]
+        b = loomrun.run_items(os.path.join(ctx.work, "dblB"), [{"prog": p, "cfg": dict(cfg0, panic_at_iter=2)}], jobs=1, tag="dblB")[0]
+        c = loomrun.run_items(os.path.join(ctx.work, "dblC"), [{"prog": p, "cfg": dict(cfg0)}], jobs=1, tag="dblC")[0]
+        useq = [u["seq_keys"][i] for i in u["seq"]]
+        cseq = [c["seq_keys"][i] for i in c["seq"]]
+        if a["end"] != "panic" or b["end"] != "panic":
+            ctx.violation("resume-failed", p, {"scenario": "crash, resume, crash, resume", "endA": a["end"], "endB": b["end"]}, {"msgB": b["msg"][:200]})
+        elif c["end"] != "ok" or cseq != useq[5:]:
+            ctx.violation("resume-diverges", p, {"scenario": "crash in #8 (interval 3), resumed run crashes in its 2nd iteration, third run",
+                                                 "third_run_iters": c["iters"], "expected_iters": u["iters"] - 5, "end": c["end"]}, {})
+        ctx.cov["double_resume_runs"] = ctx.cov.get("double_resume_runs", 0) + 1
     # failing iteration: the checkpoint written (interval 1) before the failing iteration reproduces it first
     fails = [dsl.normalize(q) for q in [
         families.P("fail-race", [dsl.spawn(2), dsl.ld("x"), dsl.wr("c"), dsl.join(2)], [dsl.st("x", 1), dsl.rd("c")]),
@@ -1121,7 +1157,7 @@ def C06(ctx):
 
 
 def C16(ctx):
-    import loomrun, pathcheck
+    import loomrun, pathcheck, copy
     ctx.assumptions += ["every iteration of every run is validated by LoomSemTrace from the spec's Init (thread ids from main, fresh "
                         "objects, empty clocks): stale state would show up as an unexplained event or value",
                         "the sequence of (path snapshot, outcome) of a program must be identical alone in a fresh process, after other "
@@ -1131,9 +1167,27 @@ def C16(ctx):
     cfgA = {"want_paths": True, "want_seq": True, "want_sched": True, "trace_cap": 40, "iter_cap": 50000}
     cfgB = {"iter_cap": 50000}
     ref = loomrun.run_items(os.path.join(ctx.work, "solo"), [{"prog": a, "cfg": cfgA} for a in A], jobs=len(A), tag="solo")   # one process each
-    for a, r in zip(A, ref):
-        if r["end"] != "ok":
-            raise tlc.ToolError(f"isolation base program does not complete: {a.get('name')} {r['end']} {r['msg']}")
+    bad = [(a, r) for a, r in zip(A, ref) if r["end"] != "ok"]
+    for a, r in bad:
+        # these programs complete on the unchanged tree: whatever stops one of them is a finding about the code under test
+        ctx.violation("unexpected-panic", a, r["end"], {"msg": r["msg"][:200], "iters": r["iters"], "note": "isolation base program does not complete"})
+    if bad:
+        keep = [k for k, r in enumerate(ref) if r["end"] == "ok"]
+        A = [A[k] for k in keep]
+        ref = [ref[k] for k in keep]
+    # the exploration flags are part of the initial state too: with expect_explicit_explore every iteration starts with
+    # exploration off, not only the first one (explore() asserts that it is off)
+    xp = []
+    for a in A[:3]:
+        q = copy.deepcopy(a)
+        q["threads"][0].insert(0, dsl.I("explore"))
+        q["name"] = (a.get("name") or "") + "+explicit-explore"
+        xp.append(dsl.normalize(q))
+    XR = loomrun.run_items(os.path.join(ctx.work, "explicit"), [{"prog": q, "cfg": dict(cfgA, expect_explicit_explore=True)} for q in xp], jobs=len(xp), tag="explicit")
+    for q, a, r0, r in zip(xp, A, ref, XR):
+        if r["end"] != "ok" or r["iters"] != r0["iters"] or loomrun.loom_keys(r) != loomrun.loom_keys(r0):
+            ctx.violation("iteration-start-state", q, {"end": r["end"], "iters": r["iters"], "iters_default_config": r0["iters"]}, {"msg": r["msg"][:200]})
+        core.prefix_determinism(ctx, q, r, label="explicit")
     core.validate_traces(ctx, A, ref, label="trace_solo")
     for a, r in zip(A, ref):
         core.prefix_determinism(ctx, a, r, label="solo")
